@@ -42,6 +42,7 @@ ENVV = ('MIDO_BACKEND', 'MIDO_DEFAULT_INPUT', 'MIDO_DEFAULT_OUTPUT', 'MIDO_DEFAU
 LOGMOD = '''
 import threading
 LOG = []
+FAIL = []          # non-empty: importing vmonbk_flaky raises ImportError
 GATE = threading.Event()
 GATE_REACHED = threading.Event()
 '''
@@ -120,6 +121,8 @@ def make_modules(d):
             f.write(TEMPLATE.format(ioport=IOPORT if io else '', getdev=GETDEV if gd else ''))
     with open(os.path.join(d, 'vmonbk_slow.py'), 'w') as f:
         f.write(SLOW_HEAD + TEMPLATE.format(ioport=IOPORT, getdev=GETDEV))
+    with open(os.path.join(d, 'vmonbk_flaky.py'), 'w') as f:
+        f.write("import vmonbk_log as _L\nif _L.FAIL:\n    raise ImportError('driver not ready')\n" + TEMPLATE.format(ioport=IOPORT, getdev=GETDEV))
 
 
 def purge():
@@ -450,6 +453,71 @@ def concurrent_first_use(ctx, LOG):
     return 1
 
 
+def shared_backend_cases(ctx, LOG):
+    """ONE Backend object: (a) its first import fails (the driver is not ready) and a later call tries again and
+    works; (b) two threads make its first calls, the second while the first is still inside the import."""
+    import threading
+    import vmonbk_log as L
+    n = 0
+    case = {'kind': 'shared-backend', 'what': 'import fails, then works'}
+    sys.modules.pop('vmonbk_flaky', None)
+    try:
+        L.FAIL.append(1)
+        b = Backend('vmonbk_flaky/API9')
+        first = None
+        try:
+            b.open_input('x')
+        except ImportError as exc:
+            first = exc
+        state_after_failure = (b.loaded, 'vmonbk_flaky' in sys.modules)
+        del L.FAIL[:]
+        del LOG[:]
+        port = b.open_input('x')
+        names = b.get_input_names()
+        ctx.check('backend module lazily imported', first is not None and state_after_failure == (False, False)
+                  and type(port).__name__ == 'Input' and b.loaded and names == model_names('input', True)
+                  and [e for e in LOG if e[0] == 'import'] == [('import', 'vmonbk_flaky')],
+                  'failed-import-not-retried', case,
+                  lambda: {'first_call_raised': repr(first), 'loaded/in sys.modules after the failure': state_after_failure,
+                           'second_call': type(port).__name__, 'log': LOG[:4]})
+    except Exception as exc:
+        ctx.fail('no exception', f'shared-backend:retry:{type(exc).__name__}', case, f'{type(exc).__name__}: {exc}')
+    finally:
+        del L.FAIL[:]
+        sys.modules.pop('vmonbk_flaky', None)
+    n += 1
+    case = {'kind': 'shared-backend', 'what': 'two threads, one object'}
+    sys.modules.pop('vmonbk_slow', None)
+    L.GATE.clear()
+    L.GATE_REACHED.clear()
+    out = {}
+    shared = Backend('vmonbk_slow/API3')
+
+    def use(tag, fn):
+        try:
+            r = fn()
+            out[tag] = type(r).__name__ if not isinstance(r, list) else r
+        except Exception as exc:
+            out[tag] = repr(exc)
+    ta = threading.Thread(target=use, args=('a', lambda: shared.open_input('x')), daemon=True)
+    tb = threading.Thread(target=use, args=('b', lambda: shared.get_output_names()), daemon=True)
+    ta.start()
+    if L.GATE_REACHED.wait(10):
+        tb.start()
+        tb.join(0.3)
+        L.GATE.set()
+        ta.join(10)
+        tb.join(10)
+        ctx.check('backend module lazily imported', out.get('a') == 'Input' and out.get('b') == model_names('output', True),
+                  'shared-object-used-while-importing', case, lambda: dict(out))
+        n += 1
+    else:
+        ctx.undecided('shared backend: the module body was never entered')
+    L.GATE.set()
+    sys.modules.pop('vmonbk_slow', None)
+    return n
+
+
 class UserBackend(Backend):
     """A user's Backend subclass: one method overridden (it only delegates), the rest inherited."""
 
@@ -609,6 +677,9 @@ def run(ctx):
                 k = concurrent_first_use(ctx, LOG)
                 ctx.nontrivial(None, k)
                 n += k
+                k = shared_backend_cases(ctx, LOG)
+                ctx.nontrivial(None, k)
+                n += k
                 k = subclass_and_empty_env(ctx, LOG)
                 ctx.nontrivial(None, k)
                 n += k
@@ -632,6 +703,7 @@ def replay(ctx, case):
                 set_backend_sequences(ctx, vmonbk_log.LOG)
                 extra_sequences(ctx, vmonbk_log.LOG)
                 concurrent_first_use(ctx, vmonbk_log.LOG)
+                shared_backend_cases(ctx, vmonbk_log.LOG)
                 subclass_and_empty_env(ctx, vmonbk_log.LOG)
         finally:
             sys.path.remove(d)
